@@ -49,3 +49,37 @@ Theorem C16_removals_never_empty : forall s h adds rms,
   (length (r_off s) <= length (r_voters s))%nat -> (length (r_off s') <= length (r_voters s'))%nat.
 Proof. exact (removals_never_empty (fun x => x) []). Qed.
 Print Assumptions C16_removals_never_empty.
+
+(* ---- the group invariant, for every reachable state ---- *)
+From Goat Require Import Proofs.BridgeGroup.
+(* ginv: proposer, voters and queued joiners are pairwise distinct (in particular the proposer is not a
+   voter); every member has an activated or off-boarding record; every queued joiner has an on-boarding
+   record; at least one member is not queued for removal.  It is preserved by EVERY operation
+   (C16_group_step), hence holds in every state reachable from a well-formed group (C16_group_reachable),
+   and in such a state the end-of-block election step cannot fail (C16_election_total: an error there
+   would halt the chain). *)
+Theorem C16_group_step : forall (H : bytes -> bytes) (chain : bytes) s o, ginv s -> ginv (fst (bk_step H chain s o)).
+Proof. exact bk_step_ginv. Qed.
+Print Assumptions C16_group_step.
+
+Theorem C16_group_reachable : forall (H : bytes -> bytes) (chain : bytes) ops s, ginv s -> ginv (bk_run H chain s ops).
+Proof. exact ginv_reachable. Qed.
+Print Assumptions C16_group_reachable.
+
+Theorem C16_election_total : forall (H : bytes -> bytes) s now, ginv s ->
+  exists s', relayer_end_block H s now = Ok s' /\ ginv s'.
+Proof. intros H s now. exact (election_total H [] s now). Qed.
+Print Assumptions C16_election_total.
+
+(* non-vacuity: a group of a proposer and two activated voters is well-formed *)
+Example C16_group_example :
+  let vt : gmap N voter := {[ 1 := mkVoter (VKKey 11) 4 0; 2 := mkVoter (VKKey 12) 4 0; 3 := mkVoter (VKKey 13) 4 0 ]} in
+  forall s, r_proposer s = 1 -> r_voters s = [2; 3] -> r_on s = [] -> r_off s = [] -> r_voter s = vt -> ginv s.
+Proof.
+  intros vt s Ep Ev Eo Ef Et. constructor.
+  - unfold members. rewrite Ep, Ev, Eo. repeat constructor; cbn; intuition discriminate.
+  - intros a Ha. unfold members in Ha. rewrite Ep, Ev in Ha. unfold status_of. rewrite Et.
+    destruct Ha as [<-|[<-|[<-|[]]]]; left; reflexivity.
+  - rewrite Eo. intros a [].
+  - unfold nfree, members. rewrite Ep, Ev, Ef. cbn. lia.
+Qed.
